@@ -40,6 +40,9 @@ class Recorder:
             raise AttributeError(name)
         return self._method(name)
 
+    def __getitem__(self, key):
+        return self._method("__getitem__")(key)
+
     def _method(self, name):
         spec = (self._shape.methods if self._shape is not None else {}).get(name, {})
 
